@@ -181,7 +181,7 @@ def xslt_case(ctx, idx, res):
         ea = e.replace('{', '{{').replace('}', '}}')
         k = r.randrange(1, 30)
         body = ('<b1><xsl:if test="%(e)s">T</xsl:if></b1><b2><xsl:choose><xsl:when test="%(e)s">T</xsl:when><xsl:otherwise/></xsl:choose></b2><b3><xsl:value-of select="boolean(%(e)s)"/></b3>'
-                '<s1><xsl:value-of select="%(e)s"/></s1><s2 a="{%(ea)s}"/><s3><xsl:value-of select="string(%(e)s)"/></s3><s4><xsl:variable name="v" select="%(e)s"/><xsl:value-of select="$v"/></s4>'
+                '<s1><xsl:value-of select="%(e)s"/></s1><s2 a="{%(ea)s}"/><s6 a="pre-{%(ea)s}|{%(ea)s}"/><s3><xsl:value-of select="string(%(e)s)"/></s3><s4><xsl:variable name="v" select="%(e)s"/><xsl:value-of select="$v"/></s4>'
                 '<s5><xsl:variable name="w"><xsl:value-of select="%(e)s"/></xsl:variable><xsl:value-of select="$w"/></s5>'
                 '<n1><xsl:number value="%(e)s" format="1"/></n1><n2><xsl:value-of select="round(number(%(e)s))"/></n2>'
                 ) % {'e': e, 'ea': ea}
@@ -204,7 +204,7 @@ def xslt_case(ctx, idx, res):
         v = {}
         for c in out.children:
             if c.kind == refxml.ELEM:
-                v[c.local] = c.string_value() if c.local != 's2' else dict((a.local, a.value) for a in c.attrs).get('a', '')
+                v[c.local] = c.string_value() if c.local not in ('s2', 's6') else dict((a.local, a.value) for a in c.attrs).get('a', '')
         # the sort key: the order of a numeric sort must be the one number(E) gives for each node (NaN first, stable)
         ks = [dict((a.local, a.value) for a in c.attrs)['id'] for o in out.children if o.kind == refxml.ELEM and o.local == 'ks' for c in o.children if c.kind == refxml.ELEM]
         kp = [dict((a.local, a.value) for a in c.attrs) for o in out.children if o.kind == refxml.ELEM and o.local == 'kp' for c in o.children if c.kind == refxml.ELEM]
@@ -231,6 +231,8 @@ def xslt_case(ctx, idx, res):
             if v.get(site) != v.get('s3'):
                 res.viol('xslt|string|%s|%s' % (name, top), 'as %s the expression %s gives %r, string() of it %r' % (name, expr[:150], (v.get(site) or '')[:80], (v.get('s3') or '')[:80]), payload)
                 break
+        if v.get('s6') != 'pre-%s|%s' % (v.get('s3'), v.get('s3')):
+            res.viol('xslt|string|avt-after-text|%s' % top, 'the attribute value template "pre-{E}|{E}" with E = %s gives %r, string(E) is %r' % (expr[:150], (v.get('s6') or '')[:80], (v.get('s3') or '')[:60]), payload)
         if re.match(r'^[1-9][0-9]{0,14}$', v.get('n2', '')) and v.get('n1') != v.get('n2'):
             res.viol('xslt|number|number-value|%s' % top, 'xsl:number value="%s" gives %r, round(number()) of it is %s' % (expr[:150], v.get('n1'), v.get('n2')), payload)
         res.count('xslt_expressions_compared')
